@@ -34,7 +34,7 @@ type vScanStubFactory struct {
 }
 
 func (s *vScanStubFactory) GetDefinitionRegistry() container.DefinitionRegistry { return s.reg }
-func (s *vScanStubFactory) GetRegisteredComponents() map[string]any              { return s.comps }
+func (s *vScanStubFactory) GetRegisteredComponents() map[string]any             { return s.comps }
 func (s *vScanStubFactory) GetDefinitionRegistryPostProcessors() []container.DefinitionRegistryPostProcessor {
 	return s.procs
 }
